@@ -6,9 +6,11 @@ import B6.Props.Facts.C08
 import B6.Props.Facts.C09
 import B6.Props.Facts.C11
 import B6.Props.Facts.C12
+import B6.Props.Facts.C17
 import B6.Props.Facts.C18
 import B6.Props.Facts.C20
 import B6.Props.Facts.C21
+import B6.Props.Facts.C23
 import B6.Props.Facts.C27
 import B6.Props.Facts.C29
 import B6.Props.Facts.C31
